@@ -8,7 +8,7 @@ RULE = (
     "closure_scc_based(), closure_reference() and closure() is compared with the reference closure ((I-A)^-1 over Q, "
     "Floyd-Warshall for idempotent weights), solve_left(b)/solve_right(b) with b(I-A)^-1 / (I-A)^-1 b, and G.blocks with "
     "the SCCs obtained from a reachability matrix (exact partition, cross-block edges pointing forward in the listed "
-    "order). evaluations = entry / block decisions; non-trivial = graph with a cycle of length >= 2 or >= 2 SCCs."
+    "order); the same calls are also issued, repeated and in random order, on ONE graph object (shared cached decompositions). evaluations = entry / block decisions; non-trivial = graph with a cycle of length >= 2 or >= 2 SCCs."
 )
 ASSUMPTIONS = ["rv/ref/linref.py closures are correct", "graphs <= 7 nodes, row sums <= 1/2"]
 ANCHORS = ["genlm.grammar.linear:WeightedGraph.closure_scc_based", "genlm.grammar.linear:WeightedGraph.closure_reference",
@@ -29,7 +29,7 @@ def gates(tier):
         "min_decided": {"G.closure_scc_based()": 20000 * k, "G.closure_reference()": 20000 * k, "G.solve_left(b)": 5000 * k,
                         "G.solve_right(b)": 5000 * k, "G.blocks": 3000 * k, "G.closure()": 20000 * k},
         "shapes": {c: 10 * k for c in ["self_loop", "multi_scc", "nontrivial_scc", "isolated_node", "sr:Q", "sr:Float",
-                                       "sr:Boolean", "sr:MaxTimes", "sr:Real", "cross_edges"]},
+                                       "sr:Boolean", "sr:MaxTimes", "sr:Real", "cross_edges", "shared-object-sequences"]},
         "min_hashseeds": 2,
     }
 
@@ -37,7 +37,7 @@ def gates(tier):
 def gen_case(rng, spec):
     from rv.gen import automata as GA
 
-    return {"G": GA.gen_graph(rng), "R": rng.choice(SEMIRINGS)}
+    return {"G": GA.gen_graph(rng), "R": rng.choice(SEMIRINGS), "hseed": rng.randrange(1 << 30)}
 
 
 def run_case(case, ctx):
@@ -133,6 +133,45 @@ def run_case(case, ctx):
             for i in range(n):
                 ctx.check(api, same(sol[names[i]], want[i]), f"{meth}/entry", dict(case, i=i),
                           {"i": names[i], "have": sol[names[i]], "want": lib.want_value(R, want[i])})
+    # history on ONE graph object: the solvers and closures share cached decompositions; every call, in any order
+    # and when repeated, must keep returning the right answer
+    import random as _random
+
+    hr = _random.Random(case.get("hseed", 0))
+    ok, H = ctx.call(APIS[0], case, mkgraph)
+    if ok:
+        seq = ["solve_left", "solve_right", "closure_scc_based", "closure", "solve_right", "solve_left", "blocks"]
+        hr.shuffle(seq)
+        ctx.shape["shared-object-sequences"] += 1
+        for step, name in enumerate(seq):
+            c2 = dict(case, sequence=seq, step=step)
+            if name in ("solve_left", "solve_right"):
+                api = APIS[2] if name == "solve_left" else APIS[3]
+                want = left if name == "solve_left" else right
+                ok, sol = ctx.call(api, c2, getattr(H, name), bl)
+                if ok:
+                    for i in range(n):
+                        ctx.check(api, same(sol[names[i]], want[i]), f"{name}/entry/after-other-calls-on-the-same-graph", dict(c2, i=i),
+                                  {"i": names[i], "have": sol[names[i]], "want": lib.want_value(R, want[i]), "sequence": seq[: step + 1]})
+            elif name in ("closure_scc_based", "closure"):
+                api = APIS[0] if name == "closure_scc_based" else APIS[5]
+                ok, K = ctx.call(api, c2, getattr(H, name))
+                if ok:
+                    for i in range(n):
+                        for j in range(n):
+                            ctx.check(api, same(entry(K, i, j), C[i][j]), f"{api}/entry/after-other-calls-on-the-same-graph", dict(c2, i=i, j=j),
+                                      {"i": names[i], "j": names[j], "have": entry(K, i, j), "want": lib.want_value(R, C[i][j]), "sequence": seq[: step + 1]})
+            else:
+                ok, blocks_h = ctx.call(APIS[4], c2, lambda: H.blocks)
+                if ok:
+                    try:
+                        bs = [frozenset(names.index(x) for x in blk) for blk in blocks_h]
+                        pos = {x: k for k, blk in enumerate(bs) for x in blk}
+                        bad = [(i, j) for i, j, w in edges if pos.get(i) is not None and pos.get(j) is not None and pos[i] > pos[j]]
+                        ctx.check(APIS[4], set(bs) == comps and not bad, "blocks/wrong-after-other-calls-on-the-same-graph", c2,
+                                  {"blocks": [sorted(x) for x in bs], "backward_edges": bad[:5], "sequence": seq[: step + 1]})
+                    except ValueError as e:
+                        ctx.violated(APIS[4], "blocks/unknown-node", c2, {"error": repr(e)})
     # SCC decomposition
     ok, blocks = ctx.call(APIS[4], case, lambda: mkgraph().blocks)
     if ok:
